@@ -282,10 +282,10 @@ fn strat_pos() -> BoxedStrategy<PosCase> {
 }
 
 fn strat_bad() -> BoxedStrategy<Bad> {
-  (nside(), 0u64..1000, any::<bool>(), -7.0f64..7.0, gens::invalid_lat())
-    .prop_map(|(nside, k, far, lon, lat)| {
+  (nside(), gens::invalid_hash_parts(), -7.0f64..7.0, gens::invalid_lat())
+    .prop_map(|(nside, (how, a, b), lon, lat)| {
       let nh = 12 * nside as u64 * nside as u64;
-      Bad { nside, h: if far { u64::MAX - k } else { nh + k }, lon, lat }
+      Bad { nside, h: gens::make_invalid_hash(nh, 0, how, a, b), lon, lat }
     })
     .boxed()
 }
